@@ -312,7 +312,7 @@ pub fn shard_run(tier: &str, seed: u64, replay_case: Option<usize>, shard: Shard
         out.errors.push("server binary not built".into());
         return out;
     };
-    let n = if thorough { 144 } else { 12 };
+    let n = if thorough { 192 } else { 36 };
     for i in 0..n {
         match replay_case {
             Some(c) => {
